@@ -26,7 +26,7 @@ pub static DEF: PropertyDef = PropertyDef {
     exhaustive_note: "none (sampled programs and histories)",
     generate,
     execute,
-    must_hit: &["fault.cycle.create_play_drop", "fault.cycle.play_reset", "fault.cycle.load_same_save", "cycle.program_with_loop"],
+    must_hit: &["fault.cycle.create_play_drop", "fault.cycle.play_reset", "fault.cycle.load_same_save", "cycle.program_with_loop", "programs.json-mutated"],
     timeout_s: 60,
     hang_class: None,
     sub_builds: &[],
@@ -36,7 +36,22 @@ pub static DEF: PropertyDef = PropertyDef {
 fn generate(corpus: &Corpus, tier: Tier, run: u64, rng: &mut Rng) -> Option<Case> {
     let mut prof = super::c02::c02_profile();
     prof.max_json = 30_000;
-    let prog = pick_program(corpus, rng, &prof)?;
+    let mut prog = pick_program(corpus, rng, &prof)?;
+    // hand-made runtime JSON: a choice whose target is the container it stands in (a menu that leads back
+    // to itself) - no compiler emits it, the runtime plays it
+    if rng.chance(1, 6) {
+        let hits: Vec<usize> = prog.json.match_indices("{\"*\":\"").map(|m| m.0).collect();
+        if !hits.is_empty() {
+            let at = hits[rng.below(hits.len())] + 6;
+            if let Some(end) = prog.json[at..].find('"') {
+                let target = if rng.chance(1, 2) { ".^".to_string() } else { prog.json[at..at + end].split('.').next().unwrap_or(".^").to_string() };
+                let mutated = format!("{}{}{}", &prog.json[..at], target, &prog.json[at + end..]);
+                if let Some(p2) = Program::from_json("json-mutated", &prog.name, prog.source.clone(), mutated) {
+                    prog = p2;
+                }
+            }
+        }
+    }
     let cfg = ScriptCfg {
         beats: if tier == Tier::Quick { 2 + rng.below(4) } else { 2 + rng.below(7) },
         flows: rng.chance(1, 3),
